@@ -418,6 +418,52 @@ pub fn sweep(thorough: bool, panic_only: bool) -> (u64, Vec<(String, String)>) {
             }
         }
     }
+    // an assertion that names a commodity seen nowhere before (true: `= 0 Z`; false: `= 5 Z`), on a posting in another commodity
+    for (x, must_hold) in [(d("0"), true), (d("5"), false), (d("-1"), false)] {
+        for first in [true, false] {
+            let mut txns: Vec<Txn> = Vec::new();
+            if !first {
+                txns.push(vec![
+                    Post { account: "A", amount: Some((d("100"), "X")), cost: None, lot: None, assertion: None },
+                    Post { account: "E", amount: None, cost: None, lot: None, assertion: None },
+                ]);
+            }
+            txns.push(vec![
+                Post { account: "A", amount: Some((d("10"), "X")), cost: None, lot: None, assertion: Some((x, Some("Z"))) },
+                Post { account: "E", amount: None, cost: None, lot: None, assertion: None },
+            ]);
+            let _ = must_hold;
+            evaluated += 1;
+            if let Some(b) = check(&txns, &[]).filter(|b| !panic_only || b.1.contains("panicked")) {
+                if bad.len() < 12 { bad.push(b); }
+            }
+        }
+    }
+    // an omitted posting on a NEW account next to a commodity that cancels among the others: the account must end up
+    // holding only what it received (no zero-valued commodity), so that a later bare `= 0` assignment / assertion works
+    for later in 0..3 {
+        let mut txns: Vec<Txn> = vec![vec![
+            Post { account: "A", amount: Some((d("100"), "X")), cost: None, lot: None, assertion: None },
+            Post { account: "B", amount: Some((d("-100"), "X")), cost: None, lot: None, assertion: None },
+            Post { account: "C", amount: Some((d("5"), "Y")), cost: None, lot: None, assertion: None },
+            Post { account: "D", amount: None, cost: None, lot: None, assertion: None },
+        ]];
+        match later {
+            0 => {}
+            1 => txns.push(vec![
+                Post { account: "D", amount: None, cost: None, lot: None, assertion: Some((d("0"), None)) },
+                Post { account: "E", amount: None, cost: None, lot: None, assertion: None },
+            ]),
+            _ => txns.push(vec![
+                Post { account: "D", amount: Some((d("5"), "Y")), cost: None, lot: None, assertion: Some((d("0"), None)) },
+                Post { account: "E", amount: None, cost: None, lot: None, assertion: None },
+            ]),
+        }
+        evaluated += 1;
+        if let Some(b) = check(&txns, &[]).filter(|b| !panic_only || b.1.contains("panicked")) {
+            if bad.len() < 12 { bad.push(b); }
+        }
+    }
     (evaluated, bad)
 }
 
